@@ -9,7 +9,7 @@ use crate::{Opts, Tier};
 use rust_rule_engine::rete::stream_alpha_node::{StreamAlphaNode, WindowSpec};
 use rust_rule_engine::streaming::aggregator::{AggregationResult, AggregationType, Aggregator};
 use rust_rule_engine::streaming::event::StreamEvent;
-use rust_rule_engine::streaming::operators::{Aggregation, Average, Count, Max, Min, Sum, WindowConfig, WindowedStream};
+use rust_rule_engine::streaming::operators::{Average, Count, Max, Min, Sum, WindowConfig, WindowedStream};
 use rust_rule_engine::streaming::window::{TimeWindow, WindowManager, WindowType};
 use rust_rule_engine::types::Value;
 use serde_json::json;
